@@ -29,6 +29,7 @@ func runC01(e *Engine, tier Tier) *PropRun {
 		}
 		return false
 	})
+	e.prepareExempt("C01", fns, opts)
 	rs := e.verifyAll(fns, opts, nil)
 	safetyKinds := map[string]bool{"idx": true, "slice": true, "nil": true, "assert": true, "div": true, "makeslice": true, "panic": true, "pre": true, "dec": true}
 	return &PropRun{
